@@ -126,6 +126,30 @@ pub fn gen_sources(rng: &mut Rng, tier: &Tier) -> Vec<Case> {
         }
         cases.push(c);
     }
+    // a copy of a source (`Clone`) is a source in the same state — a pending look-ahead of `Peek`, the remembered item of
+    // the cache wrapper included — and the two go on independently
+    for _ in 0..tier.n(150, 1500) {
+        let e = src_expr(rng, 2, true);
+        let top = *rng.pick(&["peek", "peek", "scache", "src"]);
+        let mut c = vec![format!("new 1 {} {}", top, e)];
+        let op = |rng: &mut Rng| -> &'static str {
+            match top {
+                "peek" => if rng.chance(1, 2) { "peek" } else { "pull" },
+                "scache" => if rng.chance(1, 3) { "cached" } else { "pull" },
+                _ => "pull",
+            }
+        };
+        for _ in 0..rng.range(0, 6) {
+            c.push(format!("{} 1", op(rng)));
+        }
+        c.push("sclone 1 2".into());
+        for _ in 0..rng.range(2, 9) {
+            let o = op(rng);
+            let which = if rng.chance(1, 2) { 1 } else { 2 };
+            c.push(format!("{} {}", o, which));
+        }
+        cases.push(c);
+    }
     // sources that are NOT fused (an end marker, then items again): `Peek` must hand out a peeked end marker like
     // any other peeked answer (`Peekable`), plain pulls and the cache wrapper pass the raw answers through
     for _ in 0..tier.n(120, 1200) {
@@ -321,6 +345,23 @@ pub fn gen_sinks(rng: &mut Rng, tier: &Tier) -> Vec<Case> {
             cases.push(c);
         }
     }
+    // integer samples whose every prefix mean is an integer: there no step of the running mean truncates, so the mean of
+    // all samples so far is determined whatever the arithmetic (and a reciprocal `1 / count` is not)
+    for kind in ["sink_mean_i64", "sink_meanvar_i64", "sink_stats_i64"] {
+        for _ in 0..tier.n(25, 250) {
+            let as_filter = rng.chance(1, 2);
+            let mut c = vec![format!("new 1 {}", kind)];
+            let mut prev_mean = 0i64;
+            for k in 1..=rng.range(2, 9) {
+                let m = rng.range(-12, 12);
+                let x = k * m - (k - 1) * prev_mean;
+                prev_mean = m;
+                c.push(if as_filter { format!("ff 1 {}", x) } else { format!("sink 1 {}", x) });
+                c.push("fin 1".into());
+            }
+            cases.push(c);
+        }
+    }
     // the order-only sinks at the smallest machine integers, ends of the range included
     for (suffix, vals) in [("u8", [0i64, 1, 2, 127, 128, 254, 255]), ("i8", [-128i64, -127, -1, 0, 1, 126, 127])] {
         for kind in ["sink_min", "sink_max", "sink_bounds"] {
@@ -462,6 +503,15 @@ pub fn gen_pipes(rng: &mut Rng, tier: &Tier) -> Vec<Case> {
                         }
                     }
                     c.push("pfin 1".into());
+                }
+                'x' => {
+                    // a `source | … | sink` pipeline: pulled some way (or to the end, or beyond), then finalised
+                    for _ in 0..rng.range(0, 6) {
+                        c.push("ppull 1".into());
+                    }
+                    c.push("pfin 1".into());
+                    cases.push(c);
+                    continue;
                 }
                 _ => {
                     for _ in 0..rng.range(2, 7) {
